@@ -1,13 +1,15 @@
-\* read-back clauses on every edge two edits deep: third core, edits at a cut leaf, a cut block, the centre assembly, the core
+\* read-back clauses on every edge two edits deep: third core, edits at a cut leaf, a cut block, the centre assembly, the core; height changes of block 7
 CONSTANTS NLeaf = 6  NBlk = 3  NAsm = 2  MaxLevel = 3  LMax = 20000  VMax = 100
 CONSTANTS Parent <- TCoreParent  Area <- TCoreArea  Height <- TCoreHeight  Sym <- TCoreSym  W <- Wt  N0 <- TCoreN0  H0 <- TCoreH0
-CONSTANTS Targets <- TCoreTargetsQ  Vals <- ValsQ  Facs <- FacsQ  Masses <- MassesQ  Maps <- MapsQ  FracMaps <- FracMapsQ
+CONSTANTS Targets <- TCoreTargetsQ  Vals <- ValsQ  Facs <- FacsQ  Masses <- MassesQ  Maps <- MapsQ  FracMaps <- FracMapsQ  AddMaps <- AddMapsQ  SetMaps <- SetMapsQ
+CONSTANTS HDom <- HDom123  HTargets <- TCoreH7  HVals <- HDom123
 CONSTANTS LeafVolCut <- LeafVolCutEnv  ScaleRaises <- ScaleRaisesEnv
 INIT InitB
 NEXT NextB
 CONSTRAINT Bound
 VIEW View
 INVARIANT TypeOK
+INVARIANT VolumeAdditive
 PROPERTY ReadBack
 PROPERTY Locality
 CHECK_DEADLOCK FALSE
